@@ -76,7 +76,7 @@ def run(ctx):
                 # error (not EEXIST / ENOENT), so errno keeps what the code stored before
                 return [PTR("ERRNO")]
             return unk_default(cal)
-        ex = absint.Explorer(prog, effects=eff, inline=lambda n, d: False, on_unknown_call=unk,
+        ex = absint.Explorer(prog, effects=eff, auto_inline=False, on_unknown_call=unk,
                              loop_bound=2, max_paths=30000, summaries=sums)
         if cal0 == "fwrite":
             # a short write: fewer items than the (positive) number just read
